@@ -7,6 +7,7 @@ import (
 	"github.com/Trendyol/go-dcp/models"
 	"math"
 	"os"
+	"strings"
 	"time"
 
 	"github.com/Trendyol/go-dcp/config"
@@ -114,6 +115,8 @@ func init() {
 			out = append(out, Instance{Scenario: "c12_afterrebalance", Params: mustJSON(struct{}{}), Bound: 1, Shards: 8, Note: "the stop rule in the sessions after 1..2 real rebalances"})
 			out = append(out, Instance{Scenario: "c07_gate", Params: mustJSON(MitigationParams{Replicas: 1, TransientEnd: true, FailoverAtEnd: true}), Bound: 0, Shards: 8, Note: "rollback mitigation on (the default): after a transient end with a fail-over the re-opened vBucket keeps being streamed - an event covered by what the copies reported is delivered although no copy reports anything new"})
 			out = append(out, Instance{Scenario: "c07_gate", Params: mustJSON(MitigationParams{Replicas: 1, TransientEnd: true}), Bound: 0, Shards: 8})
+			out = append(out, Instance{Scenario: "c12_afterrebalance", Params: mustJSON(AfterRebParams{Dynamic: true}), Bound: 1, Shards: 8, Note: "dynamic membership (the re-open follows the close at once), every schedule within one deviation: the sessions after 1..2 rebalances stop exactly when their last vBucket has ended for good"})
+			out = append(out, Instance{Scenario: "c12_afterrebalance", Params: mustJSON(AfterRebParams{OldServer: true, Dynamic: true}), Bound: 1, Shards: 8, Note: "the same against a server below 5.5.0"})
 			out = append(out, Instance{Scenario: "c12_finite_rebalance", Params: mustJSON(struct{}{}), Bound: 0, Note: "a finite run across a rebalance with a slow application hook: the re-opened session's vBuckets end while the hook runs - the client still stops on its own"})
 			out = append(out, Instance{Scenario: "c12_duringopen", Params: mustJSON(struct{}{}), Bound: b - 1, Shards: 4, Note: "a stream ends while Open() still waits for another vBucket (start-up and re-open after a rebalance)"})
 			for f := 1; f <= 5; f++ {
@@ -630,6 +633,11 @@ type AfterRebParams struct {
 	// ReopenPending: dynamic membership (immediate re-open). A vBucket ended transiently and its first re-open
 	// attempt failed: the retry is sleeping (1 s) when the first rebalance starts - and is over long before it wakes
 	ReopenPending bool `json:"reopen_pending"`
+	// Dynamic: dynamic membership (the re-open follows the close at once: what the closed session's streams still
+	// report lands in the middle of the new session's start-up)
+	Dynamic bool `json:"dynamic"`
+	// CountOnly: only the active-stream figure is judged (the scenario registered under C16)
+	CountOnly bool `json:"count_only"`
 }
 
 // c12_afterrebalance: the "stops on its own iff every assigned vBucket ended for good" rule in the sessions
@@ -646,19 +654,45 @@ func init() {
 			if p.OldServer {
 				o.Version = &couchbase.Version{Major: 5, Minor: 0, Patch: 1}
 			}
-			if p.ReopenPending {
+			if p.ReopenPending || p.Dynamic {
 				o.MembershipType = "dynamic"
 			}
 			c := NewCluster(&o)
 			e := NewEnv(c, o)
 			e.Cons.AutoAck = true
-			if p.ReopenPending {
+			if p.ReopenPending || p.Dynamic {
 				publishInfo(e, 1, 1)
 				vrt.Sleep(1)
 			}
 			e.Stream.Open()
 			c.WaitIdle()
 			nreb := 1 + vrt.Choose(2, true, "rebalances")
+			lateWait := ""
+			// when the re-open of a rebalance begins, the waiter goroutine of the session it closed has taken the close
+			// token and is gone; if it is still there it will take its token AFTER Open() has reset the session flags
+			// (the listed fourth C11 finding)
+			inRebalance := false
+			e.EH.On = func(n string) {
+				if n == "BRS" {
+					inRebalance = true
+				}
+				if n == "ARE" {
+					inRebalance = false
+				}
+				if n != "BSStart" || !inRebalance {
+					return
+				}
+				// (the re-open begins: Open() is about to reset the session flags and to start the new waiter)
+				waiters := 0
+				for _, th := range vrt.LiveThreads() {
+					if strings.HasPrefix(th, "stream.(*stream).Open:") {
+						waiters++
+					}
+				}
+				if waiters > 0 {
+					lateWait = " [the wait() goroutine of the session that the rebalance closed was delayed past the end of the rebalance: it competes with the new session's waiter for the finish tokens]"
+				}
+			}
 			if p.ReopenPending {
 				pvb := uint16(vrt.Choose(3, true, "vbucket-with-a-pending-re-open"))
 				c.Vb[pvb].Opens = append(c.Vb[pvb].Opens, gocbcore.SimOpen{Kind: "err", Err: gocbcore.ErrTemporaryFailure})
@@ -691,7 +725,7 @@ func init() {
 				// (schedule window: the END(closed) notifications of the rebalance's own close may be processed
 				// before or after the observers stop forwarding ends)
 				vrt.Window(true)
-				if p.ReopenPending {
+				if p.ReopenPending || p.Dynamic {
 					publishInfo(e, 1, 1)
 					vrt.Sleep(1)
 				}
@@ -708,7 +742,9 @@ func init() {
 				vrt.Window(false)
 			}
 			if vrt.Closed(e.StopCh) {
-				vrt.Failf("%d rebalance(s) stopped the client", nreb)
+				if !p.CountOnly {
+					vrt.Failf("%d rebalance(s) stopped the client%s", nreb, lateWait)
+				}
 				return
 			}
 			if got := activeCount(e); got != 3 {
@@ -736,8 +772,8 @@ func init() {
 				if got := activeCount(e); int(got) != 2-i {
 					vrt.Failf("after %d rebalance(s) and %d final end(s) (%s): active stream count %d, want %d", nreb, i+1, fc.name, got, 2-i)
 				}
-				if stopped := vrt.Closed(e.StopCh); stopped != (i == 2) {
-					vrt.Failf("after %d rebalance(s) and %d of 3 vBuckets ended for good (%s): client stop signalled = %v", nreb, i+1, fc.name, stopped)
+				if stopped := vrt.Closed(e.StopCh); stopped != (i == 2) && !p.CountOnly {
+					vrt.Failf("after %d rebalance(s) and %d of 3 vBuckets ended for good (%s): client stop signalled = %v%s", nreb, i+1, fc.name, stopped, lateWait)
 				}
 			}
 			vrt.SetOutcome(fmt.Sprintf("%d %v %s %v", nreb, order, fc.name, transientFirst))
